@@ -1491,6 +1491,8 @@ class Stream(AbstractStream):
         elif N_streams == 1:
             if energy_balance:
                 self.copy_like(streams[0])
+            elif isinstance(self._imol, MaterialIndexer):
+                self._imol.mix_from([streams[0]._imol])
             else:
                 self.copy_flow(streams[0])
         else:
